@@ -84,7 +84,7 @@ class Recorder(object):
 
 
 def _alarm_handler(signum, frame):
-    raise WsimTimeout('wall cap')
+    raise WsimTimeout('CPU-time cap')
 
 
 class Taps(object):
@@ -224,14 +224,16 @@ class Taps(object):
         self._swap(hyd, 'update_tank_heads', update_tank_heads)
         self._swap(hyd, 'store_results_in_network', store_results_in_network)
         if self.wall_cap:
-            self._old_handler = signal.signal(signal.SIGALRM, _alarm_handler)
-            signal.alarm(int(self.wall_cap))
+            # the cap is on the CPU time of this process (ITIMER_PROF), not on wall time: a loaded machine must not turn a slow run into a
+            # harness error; a run that blocks without using CPU is ended by the runner's wall limit per case
+            self._old_handler = signal.signal(signal.SIGPROF, _alarm_handler)
+            signal.setitimer(signal.ITIMER_PROF, float(self.wall_cap))
         return rec
 
     def __exit__(self, et, ev, tb):
         if self.wall_cap:
-            signal.alarm(0)
-            signal.signal(signal.SIGALRM, self._old_handler)
+            signal.setitimer(signal.ITIMER_PROF, 0.0)
+            signal.signal(signal.SIGPROF, self._old_handler)
         for mod, name, old in reversed(self.saved):
             setattr(mod, name, old)
         self.saved = []
